@@ -17,6 +17,9 @@ type ModSpec struct {
 	ImpTable    int  `json:"imp_table"`    // slot whose "st" is imported, -1 none
 	ImpGlobal   int  `json:"imp_global"`   // slot whose funcref global "xg" is imported, -1 none
 	ImpMem      int  `json:"imp_mem"`      // slot whose memory "mem" is imported, -1 none (own memory)
+	// PrivMem: the (own) memory is NOT exported: no other instance can name it, but the module's functions
+	// (imported by others, sitting in tables, in flight) keep reading and writing it after the module is closed.
+	PrivMem bool `json:"priv_mem,omitempty"`
 	// Fail > 0: a module whose instantiation FAILS after its active element
 	// segment has written its own functions into the imported shared table
 	// (slots FailIdx, FailIdx+1): 1 = start function traps, 2 = start function
@@ -87,11 +90,12 @@ func buildModule(s ModSpec) []byte {
 	t2p, t2r := []wenc.ValType{i32, i32}, []wenc.ValType{i32}
 	// ---- imports (functions first in their index space) ----
 	act := m.ImportFunc("host", "act", []wenc.ValType{i32}, nil)
-	var imp, jact uint32
+	var imp, jact, impmk uint32
 	hasImp := s.ImpFunc >= 0
 	if hasImp {
 		imp = m.ImportFunc(slotName(s.ImpFunc), "f0", t0p, t0r)
 		jact = m.ImportFunc(slotName(s.ImpFunc), "do_act", t2p, t2r)
+		impmk = m.ImportFunc(slotName(s.ImpFunc), "mk", t0p, t0r)
 	}
 	if s.ImpTable >= 0 {
 		m.Imports = append(m.Imports, wenc.Import{Module: slotName(s.ImpTable), Name: "st", Kind: wenc.ExtTable,
@@ -120,7 +124,9 @@ func buildModule(s ModSpec) []byte {
 	if s.ImpMem < 0 {
 		m.Mems = []wenc.Limits{{Min: 1, Max: 3, HasMax: true}}
 	}
-	m.Exports = append(m.Exports, wenc.Export{Name: "mem", Kind: wenc.ExtMemory, Idx: 0}) // own or re-exported imported memory
+	if !s.PrivMem || s.ImpMem >= 0 {
+		m.Exports = append(m.Exports, wenc.Export{Name: "mem", Kind: wenc.ExtMemory, Idx: 0}) // own or re-exported imported memory
+	}
 	// ---- types used by call_indirect ----
 	t0 := m.AddType(t0p, t0r)
 	t2 := m.AddType(t2p, t2r)
@@ -128,6 +134,10 @@ func buildModule(s ModSpec) []byte {
 	k := int32(s.K * 100)
 	f0 := m.AddFunc(nil, t0r, nil, (&wenc.Code{}).I32Const(k).End().B)
 	f1 := m.AddFunc(nil, t0r, nil, (&wenc.Code{}).I32Const(k+1).End().B)
+	// mk(): mem[72] = mem[64] (a write), return mem[72] + 100K + 40: reads and writes this module's memory through
+	// whatever keeps the function reachable (import, table slot, funcref); mk_set(v) stores the marker at mem[64]
+	mk := m.AddFunc(nil, t0r, nil, (&wenc.Code{}).I32Const(72).I32Const(64).Mem(0x28, 2, 0).Mem(0x36, 2, 0).
+		I32Const(72).Mem(0x28, 2, 0).I32Const(k+40).Op(0x6a).End().B)
 	// rec(n) = n == 0 ? 0 : rec(n-1)+1 : deep native recursion (grows the compiler's stack through the shared stack-grow trampoline)
 	rec := m.NumImportedFuncs() + uint32(len(m.Funcs))
 	m.AddFunc([]wenc.ValType{i32}, t0r, nil, (&wenc.Code{}).LocalGet(0).Op(0x45).If(i32).I32Const(0).Else().
@@ -171,6 +181,7 @@ func buildModule(s ModSpec) []byte {
 	m.ExportFunc("f0", f0)
 	m.ExportFunc("f1", f1)
 	m.ExportFunc("do_act", doAct)
+	m.ExportFunc("mk", mk)
 	// getref(which) -> funcref
 	third := f0
 	if hasImp {
@@ -179,7 +190,8 @@ func buildModule(s ModSpec) []byte {
 	gr := &wenc.Code{}
 	gr.LocalGet(0).Op(0x45).If(funcref).RefFunc(f0).Else() // i32.eqz
 	gr.LocalGet(0).I32Const(1).Op(0x46).If(funcref).RefFunc(f1).Else()
-	gr.LocalGet(0).I32Const(2).Op(0x46).If(funcref).RefFunc(third).Else().RefFunc(doAct).End().End().End()
+	gr.LocalGet(0).I32Const(2).Op(0x46).If(funcref).RefFunc(third).Else()
+	gr.LocalGet(0).I32Const(3).Op(0x46).If(funcref).RefFunc(doAct).Else().RefFunc(mk).End().End().End().End()
 	exp("getref", []wenc.ValType{i32}, []wenc.ValType{funcref}, gr)
 
 	tblFuncs := func(prefix string, t uint32) {
@@ -205,6 +217,7 @@ func buildModule(s ModSpec) []byte {
 	}
 	if hasImp {
 		exp("call_imp", nil, t0r, (&wenc.Code{}).Call(imp).I32Const(1).Op(0x6a))
+		exp("call_impmk", nil, t0r, (&wenc.Code{}).Call(impmk).I32Const(2).Op(0x6a))
 		exp("chain", t2p, t2r, (&wenc.Code{}).LocalGet(0).LocalGet(1).Call(jact).Call(f0).Op(0x6a))
 	}
 	// mem_rw(v): mem[16]=v; return mem[16] + memory.size
@@ -212,6 +225,7 @@ func buildModule(s ModSpec) []byte {
 		(&wenc.Code{}).I32Const(16).LocalGet(0).Mem(0x36, 2, 0).I32Const(16).Mem(0x28, 2, 0).MemorySize().Op(0x6a))
 	exp("mem_grow", []wenc.ValType{i32}, t0r, (&wenc.Code{}).LocalGet(0).MemoryGrow())
 	exp("gi_set", []wenc.ValType{i32}, nil, (&wenc.Code{}).LocalGet(0).GlobalSet(gi))
+	exp("mk_set", []wenc.ValType{i32}, nil, (&wenc.Code{}).I32Const(64).LocalGet(0).Mem(0x36, 2, 0))
 	// tramp(n): memory.grow 0, table.grow 0, ref.func, deep recursion: every shared trampoline, no lasting state; returns n
 	exp("tramp", []wenc.ValType{i32}, t0r, (&wenc.Code{}).I32Const(0).MemoryGrow().Drop().
 		RefNull(funcref).I32Const(0).Prefixed(0xfc, 15).U32(pt).Drop().
@@ -224,9 +238,9 @@ func buildModule(s ModSpec) []byte {
 	}
 	m.Elems = append(m.Elems, wenc.Elem{Mode: 0, TableIdx: pt, Offset: wenc.ConstI32(0), FuncIdx: ptInit})
 	if s.ExportTable {
-		m.Elems = append(m.Elems, wenc.Elem{Mode: 0, TableIdx: st, Offset: wenc.ConstI32(0), FuncIdx: []uint32{f1}})
+		m.Elems = append(m.Elems, wenc.Elem{Mode: 0, TableIdx: st, Offset: wenc.ConstI32(0), FuncIdx: []uint32{f1, mk}})
 	}
-	decl := []uint32{f0, f1, doAct}
+	decl := []uint32{f0, f1, doAct, mk}
 	if hasImp {
 		decl = append(decl, imp)
 	}
